@@ -17,6 +17,7 @@
 //                                                                              -> m={..} s=<hex>
 // attrs = `-` | comma separated `<keyhex>=<value token>`; value token = s<hex> | i<int64> | j<int32> | u<uint32> | b<0|1> | d<int as double>
 #include "common.h"
+#include "supervised.h"
 
 #include <sys/types.h>
 #include <sys/wait.h>
@@ -364,7 +365,7 @@ int main()
   unsetenv("OTEL_RESOURCE_ATTRIBUTES");
   unsetenv("OTEL_SERVICE_NAME");
   unsetenv("OTEL_SDK_DISABLED");
-  return vh::run_lines([](const std::vector<std::string> &t) -> std::string {
+  return vh::run_lines_supervised([](const std::vector<std::string> &t) -> std::string {
     if (t.empty()) return "bad-op";
     if (t[0] == "env") return handle_env(t);
     if (t[0] == "res") return handle_res(t);
